@@ -306,7 +306,7 @@ def eq_typed(ex, x, y, ty):
     it = inner_type(ty, 'Vec')
     if it is None and ty.startswith('[') and ty.endswith(']'): it = ty[1:-1].split(';')[0].strip() if mt.find_top(ty[1:-1], ';') != -1 else ty[1:-1]
     if it is not None:
-        xi = xv.items if isinstance(xv, PyVec) else xv.fields; yi = yv.items if isinstance(yv, PyVec) else yv.fields
+        xi = _items(ex, xv); yi = _items(ex, yv)
         if len(xi) != len(yi): return False
         for i in range(len(xi)):
             if not ex.branch_bool(eq_typed(ex, Ref(xi, i), Ref(yi, i), it)): return False
@@ -552,8 +552,19 @@ def m_slice_first(ex, f, a):
 @pattern(r'^core::slice::<impl \[.*\]>::(get|get_mut)(::<usize>)?$')
 def m_slice_get(ex, f, a):
     it = _items(ex, a[0]); i = a[1]
-    if is_sym(i): i = ex.concretize(i, 'slice get')
+    if is_sym(i):
+        if not ex.branch_bool(z3.And(i >= 0, i < len(it))): return NONE()
+        i = ex.concretize(i, 'slice get')
     return some(Ref(it, i)) if 0 <= i < len(it) else NONE()
+@pattern(r'^core::slice::<impl \[.*\]>::get::<(std::ops::|core::ops::)?Range<usize>>$')
+def m_slice_get_range(ex, f, a):
+    """<[T]>::get(start..end): None unless start <= end <= len"""
+    it = _items(ex, a[0]); rg = ex.deref(a[1]); st_, en_ = rg.fields[0], rg.fields[1]
+    if is_sym(st_) or is_sym(en_):
+        if not ex.branch_bool(z3.And(zi(st_) >= 0, zi(st_) <= zi(en_), zi(en_) <= len(it))): return NONE()
+        st_ = ex.concretize(st_, 'slice get start'); en_ = ex.concretize(en_, 'slice get end')
+    if not (0 <= st_ <= en_ <= len(it)): return NONE()
+    return some(PyVec(list(it[st_:en_])))
 @pattern(r'^core::slice::<impl \[.*\]>::len$')
 def m_slice_len(ex, f, a): return len(_items(ex, a[0]))
 @pattern(r'^core::slice::<impl \[.*\]>::is_empty$')
